@@ -38,7 +38,9 @@ impl<'a> Doc<'a> {
     pub fn new(item: &'a Item, layout: Layout, gaps: Vec<usize>) -> Self {
         let pr = print_program(&item.program);
         let sem = refsem::analyze(&item.program);
-        let r = render(&pr.toks, layout, &gaps, &|g| format!(" doc{}$", g));
+        // the token-per-line variant documents every declaration with two comment lines
+        let two_lines = layout == Layout::Lines;
+        let r = render(&pr.toks, layout, &gaps, &|g| if two_lines { format!(" doc{}$\n second{}$", g, g) } else { format!(" doc{}$", g) });
         Doc { item, pr, sem, r, layout, gaps }
     }
     pub fn text(&self) -> &str {
